@@ -33,6 +33,30 @@ pub fn long_input(len: usize, seed: u64) -> Vec<u8> {
     v
 }
 
+/// medium-sized pseudo-random inputs (fixed LCG seeds, no sampling of verdicts: the same inputs every run) of
+/// irregular lengths, with a few per cent of ambiguous bytes of several kinds - content that neither the small
+/// scopes nor the structured families contain
+pub fn medium_inputs(n: usize) -> Vec<Vec<u8>> {
+    let lens = [37usize, 61, 150, 333, 997, 1234, 2500, 3001];
+    (0..n)
+        .map(|i| {
+            let len = lens[i % lens.len()] + (i / lens.len()) % 17;
+            let mut x = (i as u64 + 1).wrapping_mul(0x9E37_79B9_7F4A_7C15) | 1;
+            (0..len)
+                .map(|_| {
+                    x = x.wrapping_mul(6364136223846793005).wrapping_add(1442695040888963407);
+                    let r = (x >> 33) % 100;
+                    if r < 3 {
+                        b"NnRY-"[((x >> 50) % 5) as usize]
+                    } else {
+                        b"ACGTACGTacgtUu"[((x >> 43) % 14) as usize]
+                    }
+                })
+                .collect()
+        })
+        .collect()
+}
+
 /// record lengths at and around the round numbers a size threshold would be written as
 pub const THRESHOLD_LENGTHS: [usize; 24] = [
     99, 100, 101, 999, 1000, 1001, 4095, 4096, 4097, 4999, 5000, 5001, 9_999, 10_000, 10_001, 65_535, 65_536, 65_537, 99_999, 100_000, 100_001, 999_999,
@@ -365,6 +389,15 @@ pub fn c01(ctx: &mut Ctx) {
     let mut n_long = 0u64;
     let mut longs: Vec<Vec<u8>> = [(4097usize, 1u64), (8193, 2), (20_000, 3), (70_000, 4)].iter().map(|&(len, seed)| long_input(len, seed)).collect();
     longs.push(clean_run_input());
+    for (i, s) in medium_inputs(ctx.pick(400, 4000)).iter().enumerate() {
+        for k in [1 + i % 31, 31 - i % 7] {
+            if sh.mine() {
+                c01_case(ctx, "medium-random", s, k);
+                n_long += 1;
+                ctx.rep.nontrivial += 1;
+            }
+        }
+    }
     // runs of ambiguous bytes of every length around the block sizes a routine might scan by (8, 16, 32, 64, 128),
     // starting at every alignment within such a block, between clean stretches
     for gap in [1usize, 7, 8, 9, 15, 16, 17, 31, 32, 33, 63, 64, 65, 127, 128, 129, 191, 192, 193, 255, 256, 257, 300] {
@@ -689,6 +722,16 @@ pub fn c02(ctx: &mut Ctx) {
             }
         }
     }
+    {
+        let mut sh = ctx.shard;
+        for (i, s) in medium_inputs(ctx.pick(300, 3000)).iter().enumerate() {
+            if sh.mine() {
+                c02_stream(ctx, s, 1 + i % 31);
+                ns += 1;
+                ctx.rep.nontrivial += 1;
+            }
+        }
+    }
     // long inputs
     let mut sh = ctx.shard;
     let mut longs: Vec<Vec<u8>> = vec![long_input(8193, 2), long_input(70_000, 4), clean_run_input()];
@@ -1004,6 +1047,16 @@ pub fn minimiser_spaces(ctx: &mut Ctx, which: u32) {
     let mut n_long = 0u64;
     let mut longs: Vec<Vec<u8>> = [(4097usize, 1u64), (8193, 2), (20_000, 3), (70_000, 4)].iter().map(|&(len, seed)| long_input(len, seed)).collect();
     longs.push(clean_run_input());
+    for (i, s) in medium_inputs(ctx.pick(300, 3000)).iter().enumerate() {
+        let m = 1 + i % 31;
+        for w in [m, m + 1 + i % 5, m + 20 + i % 40] {
+            if w <= wmax && sh.mine() {
+                run(ctx, "medium-random", s, w, m);
+                n_long += 1;
+                ctx.rep.nontrivial += 1;
+            }
+        }
+    }
     for gap in [1usize, 7, 8, 9, 15, 16, 17, 31, 32, 33, 63, 64, 65, 127, 128, 129, 255, 256, 257, 300] {
         for offset in [0usize, 1, 5, 31, 32, 33, 63, 64, 65, 70, 128] {
             if !sh.mine() {
